@@ -142,3 +142,41 @@ CHECKS["C19"] = {
         {"name": "failing-rand", "pkg": "sm2", "run": "TestVX_C19", "public_files": SM2P + ["sm2/C19_pub_test.go"], "shards": 8},
     ],
 }
+
+SM4P = ["sm4/common_pub_test.go"]
+CHECKS["C05"] = {
+    "level": "exploration",
+    "assumptions": ["sm4ref (algebraic S-box, explicit rotations) validated on the GB/T 32907 vectors is the oracle",
+                    "keys/blocks from the stated alphabets, not all 2^256 pairs; arm64 kernels cannot be executed on this machine"],
+    "parts": [
+        {"name": "block-paths", "pkg": "sm4", "run": "TestVX_C05_Paths", "kind": "internal", "files": ["sm4/C05_int_test.go"], "shards": 16},
+        {"name": "block-public", "pkg": "sm4", "run": "TestVX_C05_Public", "public_files": SM4P + ["sm4/C05_pub_test.go"], "shards": 4},
+    ],
+    "deadline": {"quick": 150, "thorough": 2400},
+}
+
+CHECKS["C06"] = {
+    "level": "exploration",
+    "assumptions": ["gcmref over sm4ref is the oracle (mode logic validated against the standard library's AES-GCM and a NIST vector)",
+                    "lengths <= 1100 (covers every combination of the 256/128/64/32/16-byte kernels and a tail); messages >= 4 GiB not executed"],
+    "parts": [
+        {"name": "seal", "pkg": "sm4", "run": "TestVX_C06", "public_files": SM4P + ["sm4/C06_pub_test.go"], "shards": 16, "env": {"VX_PART": "seal"}},
+        {"name": "seal-armglue", "variant": "armglue", "pkg": "sm4", "run": "TestVX_C06", "public_files": SM4P + ["sm4/C06_pub_test.go"],
+         "shards": 16, "env": {"VX_PART": "seal-armglue"}},
+    ],
+    "prepare": {"armglue": [["python3", "{verif}/tools/prep_armglue.py", "{repo}"]]},
+    "deadline": {"quick": 200, "thorough": 3000},
+}
+
+CHECKS["C10"] = {
+    "level": "exploration",
+    "assumptions": ["gcmref/sm3ref/sm2ref give the expected outputs", "backing-array reuse is recorded but not required (the append contract does not demand it)"],
+    "parts": [
+        {"name": "buffers-gcm", "pkg": "sm4", "run": "TestVX_C10_GCM", "public_files": SM4P + ["sm4/C10_pub_test.go"], "shards": 8, "env": {"VX_PART": "seal"}},
+        {"name": "buffers-gcm-armglue", "variant": "armglue", "pkg": "sm4", "run": "TestVX_C10_GCM", "public_files": SM4P + ["sm4/C10_pub_test.go"],
+         "shards": 8, "env": {"VX_PART": "buffers-gcm-armglue"}},
+        {"name": "buffers-sum", "pkg": "sm3", "run": "TestVX_C10_Sum", "public_files": ["sm3/C10_pub_test.go"]},
+        {"name": "inputs-sm2", "pkg": "sm2", "run": "TestVX_C10_SM2", "public_files": SM2P + ["sm2/C10_pub_test.go"]},
+    ],
+    "prepare": {"armglue": [["python3", "{verif}/tools/prep_armglue.py", "{repo}"]]},
+}
